@@ -45,8 +45,10 @@ def read_ctor(path):
 
 
 class Compiler:
-    def __init__(self):
+    def __init__(self, fns=None):
         self.reads = []         # source paths in first-use order
+        self.fns = fns or {}    # module-level functions by name (verdict helpers are inlined at their call)
+        self.inlined = []       # names of the helpers inlined
 
     def read(self, path):
         if path not in self.reads:
@@ -116,8 +118,82 @@ class Compiler:
                 return "(.call %s %s)" % (PRIMS[fn], self.expr(n.args[0], bound))
             if fn in ("any", "all") and len(n.args) == 1 and isinstance(n.args[0], ast.GeneratorExp):
                 return self.generator(fn, n.args[0], bound)
+            if fn in self.fns and len(n.args) == 2:
+                skips, fail = self.pair_helper(self.fns[fn])
+                if fn not in self.inlined:
+                    self.inlined.append(fn)
+                return "(.matchAll [%s] %s %s %s)" % (", ".join(skips), fail, self.expr(n.args[0], bound),
+                                                      self.expr(n.args[1], bound))
             raise Unsupported("call of %s" % (fn or ast.unparse(n.func)))
         raise Unsupported(type(n).__name__)
+
+    def pair_helper(self, f):
+        """a verdict helper `def f(xs, yss)` of exactly the shape
+               for ys in yss:
+                   for a, b in zip(xs, ys):
+                       [if <cond>: continue]*
+                       if <cond>: return False
+               return True
+        -> ([skip conditions], fail condition) as PairExpr terms (a = .fst, b = .snd)"""
+        body = [st for st in f.body if not (isinstance(st, ast.Expr) and isinstance(st.value, ast.Constant))]
+        params = [a.arg for a in f.args.args]
+        if len(params) != 2 or f.args.vararg or f.args.kwarg or f.args.kwonlyargs or f.args.defaults:
+            raise Unsupported("helper signature")
+        xs, yss = params
+
+        def is_const(st, value):
+            return isinstance(st, ast.Return) and isinstance(st.value, ast.Constant) and st.value.value is value
+        if not (len(body) == 2 and isinstance(body[0], ast.For) and not body[0].orelse and is_const(body[1], True)):
+            raise Unsupported("helper shape")
+        outer = body[0]
+        if not (isinstance(outer.target, ast.Name) and isinstance(outer.iter, ast.Name) and outer.iter.id == yss
+                and len(outer.body) == 1 and isinstance(outer.body[0], ast.For) and not outer.body[0].orelse):
+            raise Unsupported("helper outer loop")
+        ys = outer.target.id
+        inner = outer.body[0]
+        it = inner.iter
+        if not (isinstance(inner.target, ast.Tuple) and len(inner.target.elts) == 2
+                and all(isinstance(e, ast.Name) for e in inner.target.elts)
+                and isinstance(it, ast.Call) and self.path_of(it.func) == "zip" and len(it.args) == 2
+                and not it.keywords and isinstance(it.args[0], ast.Name) and it.args[0].id == xs
+                and isinstance(it.args[1], ast.Name) and it.args[1].id == ys):
+            raise Unsupported("helper inner loop")
+        a, b = (e.id for e in inner.target.elts)
+        if len({a, b, xs, ys, yss}) != 5:
+            raise Unsupported("helper variable names")
+
+        def pe(n):
+            if isinstance(n, ast.Name) and n.id in (a, b):
+                return ".fst" if n.id == a else ".snd"
+            if isinstance(n, ast.Constant) and isinstance(n.value, str):
+                return "(.strLit %s)" % lean_str(n.value)
+            if isinstance(n, ast.UnaryOp) and isinstance(n.op, ast.Not):
+                return "(.not %s)" % pe(n.operand)
+            if isinstance(n, ast.BoolOp):
+                k = ".and" if isinstance(n.op, ast.And) else ".or"
+                vals = [pe(v) for v in n.values]
+                out = vals[-1]
+                for v in reversed(vals[:-1]):
+                    out = "(%s %s %s)" % (k, v, out)
+                return out
+            if isinstance(n, ast.Compare) and len(n.ops) == 1 and isinstance(n.ops[0], (ast.Eq, ast.NotEq)):
+                e = "(.eq %s %s)" % (pe(n.left), pe(n.comparators[0]))
+                return e if isinstance(n.ops[0], ast.Eq) else "(.not %s)" % e
+            if (isinstance(n, ast.Call) and self.path_of(n.func) == "units.scalable" and len(n.args) == 2
+                    and not n.keywords):
+                return "(.scalable %s %s)" % (pe(n.args[0]), pe(n.args[1]))
+            raise Unsupported("pair condition %s" % ast.unparse(n))
+        skips = []
+        stmts = inner.body
+        for st in stmts[:-1]:
+            if not (isinstance(st, ast.If) and not st.orelse and len(st.body) == 1
+                    and isinstance(st.body[0], ast.Continue)):
+                raise Unsupported("helper statement")
+            skips.append(pe(st.test))
+        last = stmts[-1] if stmts else None
+        if not (isinstance(last, ast.If) and not last.orelse and len(last.body) == 1 and is_const(last.body[0], False)):
+            raise Unsupported("helper verdict statement")
+        return skips, pe(last.test)
 
     def generator(self, fn, g, bound):
         if len(g.generators) != 1 or g.generators[0].is_async:
@@ -275,7 +351,7 @@ def analyse(repo):
     path = os.path.join(repo, REL)
     tree = ast.parse(open(path, encoding="utf-8").read())
     fns = {f.name: f for f in tree.body if isinstance(f, ast.FunctionDef)}
-    comp = Compiler()
+    comp = Compiler(fns)
     per_fn = {}
     loops = []
     order = []
@@ -369,6 +445,9 @@ def extract(repo):
         L.append("/-- `%s`: sites with a condition outside the compiled fragment -/" % fn)
         L.append("def opaque_%s : List MsgId := [%s]" % (fn, ", ".join("." + i for i in per_fn[fn]["opaque"])))
         L.append("")
+    L.append("/-- verdict helpers inlined at their call (their loops compiled into `Expr.matchAll`) -/")
+    L.append("def inlinedHelpers : List String := [%s]" % ", ".join(lean_str(h) for h in comp.inlined))
+    L.append("")
     L.append("/-- the compiled sites by function name (for the model driver) -/")
     L.append("def guardTable : List (String × List (MsgId × List (Expr Read))) := [%s]"
              % ", ".join("(%s, guards_%s)" % (lean_str(fn), fn) for fn in order))
